@@ -37,15 +37,29 @@ typedef struct {
 
 	/*
 	  Inode numbers of all directories entered so far, shared between an
-	  iterator and the sub directory iterators created from it.
+	  iterator and the sub directory iterators created from it. Each one
+	  is stored together with the entry it was entered through.
 	 */
 	struct dir_set_t *dirs;
+
+	/* inode number of the directory that this iterator lists */
+	sqfs_u32 dir_inum;
 } iterator_t;
 
 typedef struct dir_set_t {
 	size_t refcount;
 	rbtree_t seen;
 } dir_set_t;
+
+/*
+  The directory entry, that a directory was entered through: the directory
+  that was being listed and the position where the entry ends.
+ */
+typedef struct {
+	sqfs_u64 block;
+	sqfs_u64 offset;
+	sqfs_u32 parent_inum;
+} dir_origin_t;
 
 static int compare_inode_num(const void *ctx, const void *lhs, const void *rhs)
 {
@@ -138,6 +152,7 @@ static int it_read_link(sqfs_dir_iterator_t *base, char **out)
 static int it_open_subdir(sqfs_dir_iterator_t *base, sqfs_dir_iterator_t **out)
 {
 	iterator_t *it = (iterator_t *)base;
+	rbtree_node_t *node;
 
 	*out = NULL;
 
@@ -149,10 +164,19 @@ static int it_open_subdir(sqfs_dir_iterator_t *base, sqfs_dir_iterator_t **out)
 		return SQFS_ERROR_NOT_DIR;
 	}
 
-	/* a directory can only be reachable through a single entry */
-	if (rbtree_lookup(&it->dirs->seen,
-			  &it->inode->base.inode_number) != NULL) {
-		return SQFS_ERROR_LINK_LOOP;
+	/*
+	  A directory can only be reachable through a single entry. Opening
+	  the very same entry again is fine.
+	 */
+	node = rbtree_lookup(&it->dirs->seen, &it->inode->base.inode_number);
+	if (node != NULL) {
+		const dir_origin_t *origin = rbtree_node_value(node);
+
+		if (origin->parent_inum != it->dir_inum ||
+		    origin->block != it->state.cursor.block ||
+		    origin->offset != it->state.cursor.offset) {
+			return SQFS_ERROR_LINK_LOOP;
+		}
 	}
 
 	return create_iterator(it->rd, it->id, it->data, it->xattr,
@@ -219,6 +243,7 @@ static int create_iterator(sqfs_dir_reader_t *rd, sqfs_id_table_t *id,
 			   sqfs_dir_iterator_t **out)
 {
 	sqfs_dir_iterator_t *base;
+	dir_origin_t origin;
 	iterator_t *it;
 	int ret;
 
@@ -241,7 +266,7 @@ static int create_iterator(sqfs_dir_reader_t *rd, sqfs_id_table_t *id,
 		}
 
 		ret = rbtree_init(&it->dirs->seen, sizeof(sqfs_u32),
-				  sizeof(sqfs_u32), compare_inode_num);
+				  sizeof(dir_origin_t), compare_inode_num);
 		if (ret != 0) {
 			free(it->dirs);
 			sqfs_free(it);
@@ -251,12 +276,28 @@ static int create_iterator(sqfs_dir_reader_t *rd, sqfs_id_table_t *id,
 		it->dirs->refcount = 1;
 	}
 
-	ret = rbtree_insert(&it->dirs->seen, &inode->base.inode_number,
-			    &inode->base.inode_number);
-	if (ret != 0) {
-		dir_set_drop(it->dirs);
-		sqfs_free(it);
-		return ret;
+	memset(&origin, 0, sizeof(origin));
+
+	if (parent != NULL) {
+		origin.block = parent->state.cursor.block;
+		origin.offset = parent->state.cursor.offset;
+		origin.parent_inum = parent->dir_inum;
+	} else {
+		origin.block = ~((sqfs_u64)0);
+		origin.offset = ~((sqfs_u64)0);
+	}
+
+	it->dir_inum = inode->base.inode_number;
+
+	if (rbtree_lookup(&it->dirs->seen,
+			  &inode->base.inode_number) == NULL) {
+		ret = rbtree_insert(&it->dirs->seen,
+				    &inode->base.inode_number, &origin);
+		if (ret != 0) {
+			dir_set_drop(it->dirs);
+			sqfs_free(it);
+			return ret;
+		}
 	}
 
 	ret = sqfs_dir_reader_open_dir(rd, inode, &it->state, 0);
